@@ -573,14 +573,20 @@ class JSONPathEnvironment:
         return False
 
     def _contains(self, container: Union[Mapping[Any, Any], Sequence[Any]], item: object) -> bool:
+        if isinstance(item, NodeList):
+            # Nothing, or more than one node. Not a value, so not a member.
+            return False
         if isinstance(container, str):
             # Substring test. Only strings can be found in strings.
             return isinstance(item, str) and item in container
-        try:
-            return item in container
-        except TypeError:
-            # `item` is not hashable, so it can't be a key in a mapping.
-            return False
+        if isinstance(container, Mapping):
+            try:
+                return item in container
+            except TypeError:
+                # `item` is not hashable, so it can't be a key in a mapping.
+                return False
+        # The same equality as `==`, where booleans are not numbers.
+        return any(self._eq_values(item, element) for element in container)
 
     def _eq(self, left: object, right: object) -> bool:  # noqa: PLR0911
         if isinstance(right, NodeList):
